@@ -107,8 +107,8 @@ MUTANTS = [
     ("c04-close-strict", "C04", R + "fkm_nonlinear.py",
      "if current_load_extent < previous_load_extent-1e-12:", "if current_load_extent <= previous_load_extent+1e-12:"),
     ("c04-loadmax-not-carried", "C04", R + "fkm_nonlinear.py",
-     "        largest_point = self._HCM_Point(load=0)\n        previous_load = 0\n",
-     "        largest_point = self._HCM_Point(load=0)\n        previous_load = 0\n        if self._run_index >= 1:\n            self._load_max_seen = 0.0\n"),
+     "        largest_point = self._HCM_Point(load=0)\n",
+     "        largest_point = self._HCM_Point(load=0)\n        if self._run_index >= 1:\n            self._load_max_seen = 0.0\n"),
     ("c05-memory3-closed", "C05", R + "fkm_nonlinear.py",
      "        _is_closed_hysteresis.append(False)             # the hysteresis is not fully closed",
      "        _is_closed_hysteresis.append(True)             # the hysteresis is not fully closed"),
@@ -131,8 +131,7 @@ MUTANTS = [
     ("c05-flags-wrong-m", "C05", R + "recorders.py",
      "        numeric_array = np.array(boolean_array).reshape(-1,1).dot(np.ones((1,m))).flatten()\n",
      "        numeric_array = np.roll(np.array(boolean_array).reshape(-1,1).dot(np.ones((1,m))).flatten(), 1 if m > 2 else 0)\n"),
-    ("c05-mean-stress-not-zeroed", "C05", R + "recorders.py",
-     "        return np.where(self.is_zero_mean_stress_and_strain, 0, median)", "        return median"),
+    # (c05-mean-stress-not-zeroed was removed: Memory-3 rows are symmetric, so their mean is zero anyway - equivalent)
     ("c05-revert-lf-per-node", "C05", R + "fkm_nonlinear.py",
      "            new_val = np.maximum(self._epsilon_max_LF.values, current_point.strain.values)",
      "            new_val = self._epsilon_max_LF.values if self._epsilon_max_LF.values[0] > current_point.strain.values[0] else current_point.strain.values"),
